@@ -8,17 +8,27 @@ from core import log, OUT
 PROP = "C20"
 PATH = {"a": "a.mec", "b": "b.mec", "c": "sub/c.mec", "d": "sub/deep/d.mec"}
 
-def rel(from_file, to_file):
-    """path of to_file spelled relative to the directory of from_file"""
-    if to_file == "missing": return "nope.mec"
-    return os.path.relpath(PATH[to_file], os.path.dirname(PATH[from_file]) or ".")
+def rel(from_file, to_file, spelling=0):
+    """path of to_file spelled relative to the directory of from_file; the same file under several spellings:
+    plain, with a leading ./, through a detour into a sibling directory and back (x/../), and with a doubled separator-free ./."""
+    if to_file == "missing": return ["nope.mec", "./nope.mec", "nope.mec", "././nope.mec"][spelling % 4]
+    here = os.path.dirname(PATH[from_file]) or "."
+    p = os.path.relpath(PATH[to_file], here)
+    k = spelling % 4
+    if k == 1: return "./" + p
+    if k == 2:
+        # a detour through a directory that exists next to the including file
+        # (the directory of sub/c.mec exists in every generated tree; deeper ones are re-entered through their own name)
+        return {".": f"sub/../{p}", "sub": f"../sub/{p}", "sub/deep": f"../deep/{p}"}[here]
+    if k == 3: return "././" + p
+    return p
 
 def render_line(f, i, l, variant):
     k = l["k"]
     if k == "text": return f"line {f}{i} of the text"
     if k == "brace": return ["{6 * 7}", "{foo/bar}", "{{x.mec}}", "{x.mecx}", "{a} {b.mec}"][variant % 5]
     if k == "inc":
-        core = "{" + rel(f, l["t"]) + "}"
+        core = "{" + rel(f, l["t"], (variant // 4 + i) % 4) + "}"
         return [core, "  " + core, core + "  ", "\t" + core + " "][variant % 4]
     if k == "open":
         n = 3 + variant % 3
